@@ -1017,6 +1017,9 @@ def _register_vector_gradient_rules() -> None:
 
         for var in vec._variables:
             if var.name == wrt.name:
+                if k == 0:
+                    # x**0 is the constant 1: not 0 * x**(-1), which is NaN at x = 0
+                    return Constant(0.0)
                 if k == 1:
                     return Constant(1.0)
                 elif k == 2:
